@@ -393,7 +393,7 @@ def closed (s : State) (p : Peer) : State :=
 /-- `TransportEvent::DialFailure` → `on_dial_failure`. -/
 def dialFailure (s : State) (p : Peer) : State :=
   { s with
-    dialing := if p ∈ s.connected then s.dialing else s.dialing.filter (· != p)
+    dialing := s.dialing.filter (· != p)
     dials := s.dials.filter (fun d => d.1 != p)
     engine := (dialActions s p).foldl (fun e a => regRespDone (regSendFail e a.q p) a.q p) s.engine }
 
